@@ -161,7 +161,6 @@ theorem sim_substruct {n : Nat} (hP : ProgOk S) (ihE : ExprSim S n) (e : Expr) (
       | some kvs =>
         simp only [Outcome]
         obtain ⟨hk1, hk2, hk3⟩ := pickFields_spec fs d kvs hpick
-        have hIlen : ((d.map (·.1)).map fun k => (Instruction.Identifier k : Instr)).length = d.length := by simp
         have e0 : wp + ([Instruction.StructNew sub] ++ (compileExpr S.m.p.structs (wp + 1) c e).code).length =
             wp + 1 + (compileExpr S.m.p.structs (wp + 1) c e).code.length := by
           simp only [List.length_append, List.length_singleton]; omega
@@ -169,7 +168,7 @@ theorem sim_substruct {n : Nat} (hP : ProgOk S) (ihE : ExprSim S n) (e : Expr) (
         have hid := idents_run (m := S.m) (labels := S.labels) (d.map (·.1)) (.struct sname fs :: .struct sub [] :: (junk ++ base))
           (env :: fr) (base.length :: K) (wp + 1 + (compileExpr S.m.p.structs (wp + 1) c e).code.length) l hcI
         have e1 : wp + ([Instruction.StructNew sub] ++ (compileExpr S.m.p.structs (wp + 1) c e).code ++
-            ((d.map (·.1)).map fun k => (Instruction.Identifier k : Instr))).length =
+            ((d.map (fun x : Nat × Ty => x.1)).map fun k => (Instruction.Identifier k : Instr))).length =
             wp + 1 + (compileExpr S.m.p.structs (wp + 1) c e).code.length + d.length := by
           simp only [List.length_append, List.length_singleton, List.length_map]; omega
         rw [e1] at hcT
@@ -196,7 +195,7 @@ theorem sim_substruct {n : Nat} (hP : ProgOk S) (ihE : ExprSim S n) (e : Expr) (
             have := congrArg List.length hk1; simpa using this
           rw [hlenk] at hpop
           have hmget := mget_spec kvs.reverse fs (.struct sub [] :: (junk ++ base))
-            (by rw [← hkr]; exact List.nodup_reverse.mpr hnd)
+            (by rw [← hkr]; exact (List.reverse_perm _).nodup_iff.mpr hnd)
             (fun kv hkv => hk2 kv (List.mem_reverse.mp hkv))
           simp only [List.reverse_reverse] at hmget
           have hstepG : step S.m ⟨(d.map (·.1)).reverse.map Val.ident ++ (.struct sname fs :: .struct sub [] :: (junk ++ base)),
